@@ -53,6 +53,18 @@ def main():
     with ThreadPoolExecutor(max_workers=jobs) as ex:
         res = list(ex.map(one, names))
     bad = 0
+    if "--update" in sys.argv:
+        # record what the own property's check says today (development aid: the authoritative run of a kept change is the one
+        # keep_many.py made on /repo itself; this keeps meta.json honest after the checks were strengthened)
+        for name, prop, verdict, first in res:
+            mp = os.path.join(VERIF, "seeded", name, "meta.json")
+            m = json.load(open(mp))
+            now = verdict == "reported"
+            if m["checks"].get("own_property_detects") != now:
+                m["checks"]["own_property_detects"] = now
+                m["checks"].setdefault("history", []).append(
+                    {"recheck": "tools/recheck_seeded.py (SA_REPO worktree)", "own_property": verdict, "first_report": first})
+                json.dump(m, open(mp, "w"), indent=1)
     for name, prop, verdict, first in res:
         was = json.load(open(os.path.join(VERIF, "seeded", name, "meta.json")))["checks"].get("own_property_detects")
         flag = ""
